@@ -28,6 +28,7 @@ import traceback
 from fractions import Fraction
 
 TOLREL = Fraction(1, 10**9)
+MAXDEN = 10**8  # witnesses with larger denominators are not replayed: Point2D caps denominators at 1e9
 
 
 def build(spec):
@@ -84,8 +85,8 @@ def same_digest(a, b):
             return False
         va, ea = _num(a)
         vb, eb = _num(b)
-        if ea and eb:
-            return va == vb
+        # exact values may differ by the library's denominator cap (Point2D re-rounds every
+        # copied coordinate to a denominator <= 1e9), floats by rounding: compare to 1e-9
         return abs(va - vb) <= TOLREL * max(1, abs(va), abs(vb))
     if isinstance(a, dict):
         return isinstance(b, dict) and a.keys() == b.keys() and all(same_digest(a[k], b[k]) for k in a)
@@ -150,7 +151,7 @@ def run_symbolic(spec):
 
         def on_leaf(tr, leaf):
             rec = dict(env=[str(v) for v in leaf.env], kind=leaf.kind, ndec=leaf.ndec)
-            if any(v.denominator > 10**9 for v in leaf.env[:nexp]):
+            if any(v.denominator > MAXDEN for v in leaf.env[:nexp]):
                 rec["unrepresentable"] = True  # no witness with denominators <= 1e9 found (Point2D caps denominators)
             if leaf.kind == "return":
                 out = leaf.out
@@ -162,7 +163,9 @@ def run_symbolic(spec):
                     res["leaves"].append(rec)
                     return
                 try:
+                    _t = time.time()
                     obs = scn.oblige(tr, out) or []
+                    res["t_build"] = res.get("t_build", 0) + time.time() - _t
                 except core.PathAbort as e:
                     rec["kind"] = "intractable"
                     rec["why"] = "oblige: " + str(e)[:200]
@@ -171,7 +174,9 @@ def run_symbolic(spec):
                 rec["obl"] = []
                 for name, formula, meta in obs:
                     res["obligations"] += 1
-                    r, m = tr.check(*pc, formula, timeout_ms=getattr(scn, "ob_timeout_ms", 20000))
+                    _t = time.time()
+                    r, m = tr.check_pc(formula, timeout_ms=getattr(scn, "ob_timeout_ms", 20000))
+                    res["t_obsolve"] = res.get("t_obsolve", 0) + time.time() - _t
                     res["ob_queries"][r] = res["ob_queries"].get(r, 0) + 1
                     rec["obl"].append([name, r])
                     if r == "unsat":
@@ -185,7 +190,7 @@ def run_symbolic(spec):
                         fz = getattr(scn, "witness_atoms", None)
                         env2 = _simplify_witness(tr, leaf, env, formula, nexp, m)
                         res["violations"].append(dict(name=name, env=[str(v) for v in env2], meta=meta, kind="obligation",
-                                                      cell=[str(v) for v in leaf.env]))
+                                                      cell=[str(v) for v in leaf.env], unrepresentable=any(v.denominator > MAXDEN for v in env2)))
             elif leaf.kind == "raise":
                 fnm, line, file = _where(leaf.tb)
                 exc = type(leaf.exc).__name__
@@ -203,7 +208,7 @@ def run_symbolic(spec):
                         if f is not None:
                             res["obligations"] += 1
                             pc = tr.pc_z3()
-                            r, m = tr.check(*pc, f, timeout_ms=10000)
+                            r, m = tr.check_pc(f, timeout_ms=10000)
                             res["ob_queries"][r] = res["ob_queries"].get(r, 0) + 1
                             rec["obl"] = [[vname, r]]
                             if r == "unsat":
@@ -219,13 +224,14 @@ def run_symbolic(spec):
                                 env = _simplify_witness(tr, leaf, env, f, nexp, m)
                     if keep:
                         res["violations"].append(dict(name=vname, env=[str(v) for v in env], meta={"exc": exc, "where": [file, fnm, line]},
-                                                      kind="raise", cell=[str(v) for v in leaf.env]))
+                                                      kind="raise", cell=[str(v) for v in leaf.env], unrepresentable=any(v.denominator > MAXDEN for v in env[:nexp])))
             elif leaf.kind == "budget" and hasattr(scn, "on_budget"):
                 rec["why"] = str(leaf.exc)[:160]
                 vname = scn.on_budget()
                 if vname:
                     res["violations"].append(dict(name=vname, env=[str(v) for v in leaf.env], meta={"why": rec["why"]}, kind="hang",
-                                                  cell=[str(v) for v in leaf.env], timeout=getattr(scn, "hang_timeout", 30)))
+                                                  cell=[str(v) for v in leaf.env], timeout=getattr(scn, "hang_timeout", 30),
+                                                  unrepresentable=any(v.denominator > MAXDEN for v in leaf.env[:nexp])))
             else:
                 rec["why"] = str(leaf.exc)[:160]
             res["leaves"].append(rec)
@@ -266,7 +272,7 @@ def _simplify_witness(tr, leaf, env, formula, nexp, model):
             if c == v:
                 break
             pins = [tr.zvars[j] == rv_const(cur[j] if j != i else c) for j in range(len(cur))]
-            r, _ = tr.check(*pc, formula, *pins, timeout_ms=2000)
+            r, _ = tr.check_fresh(*pc, formula, *pins, timeout_ms=2000)
             if r == "sat":
                 cur[i] = c
                 break
@@ -289,6 +295,9 @@ def run_replay(task):
             xs = [Fraction(v) for v in env]
             out["digests"].append(_plain_run(scn, xs)[1])
         for v in task.get("violations", []):
+            if v.get("unrepresentable"):
+                out["confirms"].append(dict(reproduced=False, text="witness not representable with denominators <= 1e8: not replayed", sig={}, skipped=True))
+                continue
             xs = [Fraction(s) for s in v["env"]]
             outcome, dg, exc = _plain_run(scn, xs, timeout=v.get("timeout"))
             try:
